@@ -51,6 +51,9 @@ func (w *Worker) modExp(g, x, m BigVal) BigVal {
 			w.modexps = append(w.modexps, r)
 			w.assertSilently(tc.Cmp(OpUlt, r, tc.ConstBig(mw, m.C)))
 			if mw >= 56 {
+				// honest DH values are proper group elements: 2 <= r <= m-2 (r in {0,1,m-1}
+				// needs an exponent that is a multiple of the group order; probability ~2^-mw)
+				w.assertSilently(tc.And(tc.Cmp(OpUle, tc.Const(mw, 2), r), tc.Cmp(OpUle, r, tc.ConstBig(mw, new(big.Int).Sub(m.C, big.NewInt(2))))))
 				// generic-group assumption for DH-sized moduli: distinct
 				// (base, exponent) pairs give values that differ in the first 8 bytes
 				w.ufInjective(name, r)
